@@ -567,7 +567,8 @@ ArgObjs(a)   == IF a.op \in {"insert", "try_insert"} THEN {AK, AV} ELSE {}
 
 C06_Step(s, a, x) ==
     LET before == MarkersOf(s.ord) \cup ArgObjs(a)
-        after  == AfterObjs(x)
+        \* a recorded step says which objects are stored; a model step implies it
+        after  == IF "after" \in DOMAIN x THEN x.after ELSE AfterObjs(x)
     IN /\ before = after \cup x.dropped \cup x.handed \cup x.leaked
        /\ after \cap x.dropped = {} /\ after \cap x.handed = {} /\ after \cap x.leaked = {}
        /\ x.dropped \cap x.handed = {} /\ x.dropped \cap x.leaked = {}
